@@ -293,7 +293,32 @@ def fam_io():
     ]
     return dict(name="io", recipes=recipes, docs=docs, tokens=[])
 
-FAMS = dict(io=fam_io, policy=fam_policy, ugc=fam_ugc, conf=fam_conf, loop=fam_loop, loopq=fam_loopq, link=fam_link, url=fam_url, forced=fam_forced, allow=fam_allow, style=fam_style)
+def fam_conc():
+    """C13: concurrent calls on one shared policy; overlapping element patterns and style rules."""
+    def AS(props, scope, els=(), pat="", handler="", enum="", re=""):
+        return call("AllowStyles", props=list(props), scope=scope, els=list(els), pat=pat, handler=handler, enum=enum, re=re)
+    pats = [call("NewPolicy"), AA(["class"], pat="^custom-", noattrs=True), AA(["title", "class"], pat="-x$", match="re:^[a-z]+$"),
+            AA(["style"], pat=".*"), AS(["color"], "pat", pat="^custom-", enum="e:red|blue"), AS(["color"], "pat", pat="x$", re="r:^green$"),
+            AS(["font-size"], "glob"), call("AllowElements", names=["b"]), call("AddSpaceWhenStrippingTag", b=True)]
+    recipes = [[call("UGCPolicy"), call("AllowComments")], pats, [call("StrictPolicy")]]
+    T = lambda d: tok("text", d=d)
+    docs = [
+        dict(toks=[tok("start", "custom-x", (("class", "abc"), ("style", "color: green; font-size: 12px"))), T("one"), tok("end", "custom-x")]),
+        dict(toks=[tok("start", "object"), T("hidden"), tok("end", "object")]),
+        dict(toks=[tok("start", "a", (("href", "http://e.com/"),)), T("two"), tok("end", "a")]),
+        dict(toks=[tok("start", "a"), tok("start", "b"), tok("end", "a")]),
+        dict(toks=[tok("comment", d="c"), tok("start", "script"), T("x")]),
+    ]
+    return dict(name="conc", recipes=recipes, docs=docs, tokens=[])
+
+def fam_conc_zero():
+    """negative control for C13: a zero-value Policy{} shared before anything initialised it."""
+    f = fam_conc()
+    f["recipes"] = [[call("ZeroValue"), call("AllowComments"), call("AllowDataAttributes")]]
+    f["name"] = "conc_zero"
+    return f
+
+FAMS = dict(conc_zero=fam_conc_zero, conc=fam_conc, io=fam_io, policy=fam_policy, ugc=fam_ugc, conf=fam_conf, loop=fam_loop, loopq=fam_loopq, link=fam_link, url=fam_url, forced=fam_forced, allow=fam_allow, style=fam_style)
 
 if __name__ == "__main__":
     here = os.path.dirname(os.path.abspath(__file__))
